@@ -190,7 +190,7 @@ def cmd_discover(args):
             print(f"   Suggested merchant: {merchant}")
             print()
             print(f"   {C.DIM}[{merchant}]")
-            print(f"   match: contains(\"{pattern}\")")
+            print(f"   match: {suggest_match_expr(pattern)}")
             print(f"   category: CATEGORY")
             print(f"   subcategory: SUBCATEGORY")
             if stats['has_negative']:
@@ -205,13 +205,15 @@ def suggest_pattern(description):
     """Generate a suggested regex pattern from a raw description."""
     import re
 
-    desc = description.upper()
+    # Keep the few characters whose upper-case form is longer ('ß' -> 'SS'): a case-insensitive
+    # regex could not match that back
+    desc = ''.join(c if len(c.upper()) > 1 else c.upper() for c in description)
 
     # Remove common suffixes that vary
     desc = re.sub(r'\s+\d{4,}.*$', '', desc)  # Remove trailing numbers (store IDs)
     desc = re.sub(r'\s+[A-Z]{2}$', '', desc)  # Remove trailing state codes
     desc = re.sub(r'\s+\d{5}$', '', desc)  # Remove zip codes
-    desc = re.sub(r'\s+#\d+', '', desc)  # Remove store numbers like #1234
+    desc = re.sub(r'\s+#\d+.*$', '', desc)  # Remove store numbers like #1234 and what follows them
 
     # Remove common prefixes
     prefixes = ['APLPAY ', 'SQ *', 'TST*', 'SP ', 'PP*', 'GOOGLE *']
@@ -262,12 +264,21 @@ def suggest_merchant_name(description):
     return 'Unknown'
 
 
-def suggest_merchants_rule(merchant_name, pattern, tags=None):
-    """Generate a suggested rule block in .rules format."""
+def suggest_match_expr(pattern):
+    """Wrap a suggest_pattern() result in the match function that reads it as it was written."""
     # Escape quotes in pattern if needed
     escaped_pattern = pattern.replace('"', '\\"')
+    if '\\' in pattern:
+        # Regex syntax (\s* joins, escaped metacharacters) - contains() would take it literally.
+        # Raw string, so the backslashes reach the regex engine unchanged.
+        return f'regex(r"{escaped_pattern}")'
+    return f'contains("{escaped_pattern}")'
+
+
+def suggest_merchants_rule(merchant_name, pattern, tags=None):
+    """Generate a suggested rule block in .rules format."""
     rule = f"""[{merchant_name}]
-match: contains("{escaped_pattern}")
+match: {suggest_match_expr(pattern)}
 category: CATEGORY
 subcategory: SUBCATEGORY"""
     if tags:
